@@ -3,6 +3,8 @@ import Vuego.Driver.StackOp
 import Vuego.Driver.DomJson
 import Vuego.Driver.PageOp
 import Vuego.Driver.EntryOp
+import Vuego.Driver.LayoutOp
+import Vuego.Driver.CacheOp
 namespace Vuego.Driver
 open Lean
 
@@ -17,6 +19,8 @@ def handle (j : Json) : Json :=
   | "page" => pageOp j
   | "expr" => exprOp j
   | "writer" => writerOp j
+  | "layout" => layoutOp j
+  | "cache" => cacheOp j
   | _ => O [("error", Json.str "bad-op")]
 
 def handleLine (line : String) : String :=
